@@ -41,10 +41,13 @@ Timed(p) == ~(p.lo = 1 /\ p.hi = 1)
 WithT(r, p) == IF Timed(p) THEN RRep(r, p.lo, p.hi, QText(p)) ELSE r
 
 \* permutations of 1..n in the order itertools.permutations yields them
-PermSeq(n) == CASE n = 1 -> << <<1>> >>
-                [] n = 2 -> << <<1, 2>>, <<2, 1>> >>
-                [] n = 3 -> << <<1, 2, 3>>, <<1, 3, 2>>, <<2, 1, 3>>, <<2, 3, 1>>, <<3, 1, 2>>, <<3, 2, 1>> >>
-                [] OTHER -> << >>
+RECURSIVE PermsOf(_), PermsFrom(_, _)
+PermsFrom(s, k) ==
+    IF k > Len(s) THEN <<>>
+    ELSE LET sub == PermsOf(SubSeq(s, 1, k - 1) \o SubSeq(s, k + 1, Len(s)))
+         IN [n \in DOMAIN sub |-> <<s[k]>> \o sub[n]] \o PermsFrom(s, k + 1)
+PermsOf(s) == IF Len(s) <= 1 THEN <<s>> ELSE PermsFrom(s, 1)
+PermSeq(n) == IF n = 0 THEN <<>> ELSE PermsOf([k \in 1..n |-> k])
 
 \* ---- capture numbering -------------------------------------------------------
 DerefOrder(d) ==   \* the fields of a $deref in emission (= build) order
